@@ -17,7 +17,21 @@ so that the tie lemmas in Ties.lean are re-checked against what the source says 
 Expression subset: || && ! comparisons + - * / % unary -, parentheses, identifiers, selectors
 .X/.Y/.Min/.Max, len(x), x[i], type assertions g.(T), calls math.Abs(x), similar, pointSimilar,
 pointsSimilar, ringSimilarFrom.  Anything else raises Untranslatable (reported as a broken tie).
-The four greedy member-matching methods are NOT translated (tied by the correspondence run only)."""
+
+* `MultiLineString / Polygon / MultiPolygon / GeometryCollection .Similar` (phase 4): the case body
+      X2 := g.(T); if len(X) != len(X2) { return false }
+      indices := make([]int, len(X2)); for i := range X2 { indices[i] = i }
+      for _, L := range X { matched := false
+          for ii, i := range indices { if <cond> { matched = true
+              if <c2> { indices = <e1> } else { indices = <e2> }; break } }
+          if !matched { return false } }
+      return true
+  The statement skeleton (identity fill of `indices`, the `matched` flag protocol, `break`) is matched
+  line by line with free identifiers; <cond>, <c2>, <e1>, <e2> go through the expression translator
+  (extended with slice expressions `x[a:b]` -> `slice x a b`, `append(x, y...)` -> `x ++ y`, and method
+  calls `v.Similar(arg, tol)` resolved by the STATIC type of `v`: LineString -> simLineString,
+  Polygon -> simPolygon, Geom (interface) -> the `dispatch` parameter). The loops become
+  `outerLoop`/`innerLoop` of GenLoop.lean; Ties.lean proves them equal to the model's greedy matcher."""
 import re
 
 
@@ -26,7 +40,12 @@ class Untranslatable(Exception):
 
 
 TOK = re.compile(r"\s*(\|\||&&|<=|>=|==|!=|:=|\+\+|[-+*/%<>!(),.\[\]{};:]|[A-Za-z_][A-Za-z_0-9]*|\d+(?:\.\d+)?)")
-CALLS = ("similar", "pointSimilar", "pointsSimilar", "ringSimilarFrom")
+CALLS = ("similar", "pointSimilar", "pointsSimilar", "ringSimilarFrom", "ringSimilar")
+# element types of the member lists, conversion of a member to the Geom interface, statically
+# dispatched Similar methods
+ELEM = {"MultiLineString": "LineString", "MultiPolygon": "Polygon", "Polygon": "Path", "GeometryCollection": "Geom"}
+TOGEOM = {"LineString": ".lineString", "Polygon": ".polygon"}
+STATIC_METHOD = {"LineString": "simLineString", "Polygon": "simPolygon"}
 
 
 def tokenize(s):
@@ -45,10 +64,11 @@ class P:
     """expression parser; `assertvar`: Lean name standing for the type assertion g.(T);
     slice reads are collected in `reads` (name, lean option expression)"""
 
-    def __init__(self, toks, assertvar=None):
+    def __init__(self, toks, assertvar=None, types=None):
         self.t, self.i = toks, 0
         self.assertvar = assertvar
         self.reads = []
+        self.types = dict(types or {})  # Go static types of identifiers (member-matching methods)
 
     def peek(self, k=0):
         return self.t[self.i + k] if self.i + k < len(self.t) else None
@@ -117,9 +137,23 @@ class P:
         self.eat(")")
         return a
 
+    def args_typed(self):
+        """arguments with the static type of each (when it is a plain identifier / slice read)"""
+        self.eat("(")
+        a = []
+        while self.peek() != ")":
+            e = self.expr()
+            a.append((e, self.types.get(e)))
+            if self.peek() == ",":
+                self.eat()
+        self.eat(")")
+        return a
+
     def postfix(self, name):
         """selectors, type assertion, slice reads after an identifier"""
         while True:
+            if self.peek() == "." and self.peek(1) == ".":  # the `...` of append(x, y...)
+                return name
             if self.peek() == "." and self.peek(1) == "(":  # g.(T) / g.(*T)
                 self.eat(); self.eat()
                 if self.peek() == "*":
@@ -129,6 +163,26 @@ class P:
                 if self.assertvar is None:
                     raise Untranslatable("type assertion outside a type switch")
                 name = self.assertvar
+            elif self.peek() == "." and self.peek(1) == "Similar" and self.peek(2) == "(":
+                self.eat(); self.eat()
+                a = self.args_typed()
+                if len(a) != 2:
+                    raise Untranslatable("Similar arity")
+                (arg, argty), (tol, _) = a
+                rty = self.types.get(name)
+                if argty == "Geom":
+                    garg = arg
+                elif argty in TOGEOM:
+                    garg = "(%s %s)" % (TOGEOM[argty], arg)
+                else:
+                    raise Untranslatable("argument of Similar has unknown static type: %s" % arg)
+                if rty == "Geom":
+                    name = "(dispatch %s %s %s)" % (name, garg, tol)
+                    self.uses_dispatch = True
+                elif rty in STATIC_METHOD:
+                    name = "(%s %s %s %s)" % (STATIC_METHOD[rty], name, garg, tol)
+                else:
+                    raise Untranslatable("receiver of Similar has unknown static type: %s" % name)
             elif self.peek() == ".":
                 self.eat()
                 fld = self.eat()
@@ -140,10 +194,20 @@ class P:
                     raise Untranslatable("selector ." + fld)
             elif self.peek() == "[":
                 self.eat()
-                ix = self.expr()
+                lo = None if self.peek() == ":" else self.expr()
+                if self.peek() == ":":  # slice expression x[a:b]
+                    self.eat()
+                    hi = None if self.peek() == "]" else self.expr()
+                    self.eat("]")
+                    name = "(slice %s %s %s)" % (name, lo if lo is not None else "0", hi if hi is not None else "%s.length" % name)
+                    continue
+                ix = lo
                 self.eat("]")
                 v = "x%d" % len(self.reads)
                 self.reads.append((v, "%s[%s]?" % (name, ix)))
+                ety = ELEM.get(self.types.get(name))
+                if ety:
+                    self.types[v] = ety
                 name = v
             else:
                 return name
@@ -174,6 +238,15 @@ class P:
             if len(a) != 1:
                 raise Untranslatable("len arity")
             return "%s.length" % a[0]
+        if t == "append" and self.peek() == "(":  # append(x, y...)
+            self.eat("(")
+            x = self.expr()
+            self.eat(",")
+            y = self.expr()
+            for _ in range(3):
+                self.eat(".")
+            self.eat(")")
+            return "(%s ++ %s)" % (x, y)
         if self.peek() == "(":
             if t not in CALLS:
                 raise Untranslatable("call to %s" % t)
@@ -181,8 +254,8 @@ class P:
         return self.postfix(t)
 
 
-def parse_expr(text, assertvar=None, allow_reads=False):
-    p = P(tokenize(text), assertvar)
+def parse_expr(text, assertvar=None, allow_reads=False, types=None):
+    p = P(tokenize(text), assertvar, types)
     e = p.expr()
     if p.peek() is not None:
         raise Untranslatable("trailing tokens in %r" % text)
@@ -311,10 +384,85 @@ def method(src, rtype, defname, rparam, pat):
         defname, rparam % ((recv,) * n), pat % ((av,) * pat.count("%s")), e)
 
 
+GREEDY = [  # receiver type, Lean def name, Lean type of the receiver, constructor
+    ("MultiLineString", "simMultiLineString", "List (List P)", ".multiLineString"),
+    ("Polygon", "simPolygon", "List (List P)", ".polygon"),
+    ("MultiPolygon", "simMultiPolygon", "List (List (List P))", ".multiPolygon"),
+    ("GeometryCollection", "simCollection", "List RGeom", ".collection"),
+]
+
+
+def greedy_method(src, rtype, defname, lty, ctor):
+    m = re.search(r"^func \((\w+) %s\) Similar\(g Geom, tolerance float64\) bool \{\n(.*?)^\}" % re.escape(rtype),
+                  src, flags=re.S | re.M)
+    if not m:
+        raise Untranslatable("method (%s).Similar not found" % rtype)
+    X = m.group(1)
+    lines = [re.sub(r"\s*//.*$", "", l.strip()) for l in m.group(2).split("\n")]
+    lines = [l for l in lines if l]
+    if len(lines) < 8 or lines[0] != "switch g.(type) {" or lines[1] != "case %s:" % rtype or \
+            lines[-3:] != ["default:", "return false", "}"]:
+        raise Untranslatable("(%s).Similar: not a single-case type switch" % rtype)
+    b = lines[2:-3]
+    name = "(%s).Similar" % rtype
+    if len(b) != 26:
+        raise Untranslatable("%s: %d statements lines in the case body, the member-matching skeleton has 26" % (name, len(b)))
+
+    def need(i, pat):
+        mm = re.match(pat + "$", b[i])
+        if not mm:
+            raise Untranslatable("%s: line %r does not fit the member-matching skeleton (%s)" % (name, b[i], pat))
+        return mm
+
+    X2 = need(0, r"(\w+) := g\.\(%s\)" % re.escape(rtype)).group(1)
+    need(1, r"if len\(%s\) != len\(%s\) \{" % (X, X2)); need(2, "return false"); need(3, r"\}")
+    IND = need(4, r"(\w+) := make\(\[\]int, len\(%s\)\)" % X2).group(1)
+    iv = need(5, r"for (\w+) := range %s \{" % X2).group(1)
+    need(6, r"%s\[%s\] = %s" % (IND, iv, iv)); need(7, r"\}")
+    L = need(8, r"for _, (\w+) := range %s \{" % X).group(1)
+    M = need(9, r"(\w+) := false").group(1)
+    mm = need(10, r"for (\w+), (\w+) := range %s \{" % IND)
+    II, I = mm.group(1), mm.group(2)
+    cond = need(11, r"if (.*) \{").group(1)
+    need(12, r"%s = true" % M)
+    c2 = need(13, r"if (.*) \{").group(1)
+    e1 = need(14, r"%s = (.*)" % IND).group(1)
+    need(15, r"\} else \{")
+    e2 = need(16, r"%s = (.*)" % IND).group(1)
+    need(17, r"\}"); need(18, "break"); need(19, r"\}"); need(20, r"\}")
+    need(21, r"if !%s \{" % M); need(22, "return false"); need(23, r"\}"); need(24, r"\}")
+    need(25, "return true")
+    if len({X, X2, IND, L, M, II, I, "g", "tolerance"}) != 9:
+        raise Untranslatable("%s: identifiers of the skeleton are not distinct" % name)
+    types = {X: rtype, X2: rtype, L: ELEM[rtype]}
+    pc = P(tokenize(cond), None, types)
+    pc.uses_dispatch = False
+    ce = pc.expr()
+    if pc.peek() is not None:
+        raise Untranslatable("%s: trailing tokens in the match condition" % name)
+    if [r for _, r in pc.reads] != ["%s[%s]?" % (X2, I)]:
+        raise Untranslatable("%s: the match condition must read exactly %s[%s]" % (name, X2, I))
+    for v in (IND, II, M):
+        if re.search(r"\b%s\b" % v, cond):
+            raise Untranslatable("%s: the match condition mentions %s" % (name, v))
+    v0 = pc.reads[0][0]
+    condl = "fun %s => match %s[%s]? with | some %s => %s | none => false" % (I, X2, I, v0, ce)
+    for t in (c2, e1, e2):
+        for v in (I, L, M, X, X2):
+            if re.search(r"\b%s\b" % v, t):
+                raise Untranslatable("%s: the index removal mentions %s" % (name, v))
+    reml = "fun %s => if %s then %s else %s" % (II, parse_expr(c2), parse_expr(e1), parse_expr(e2))
+    disp = "(dispatch : RGeom → RGeom → Rat → Bool) " if pc.uses_dispatch else ""
+    return ("def %s %s(%s : %s) (g : RGeom) (tolerance : Rat) : Bool :=\n  match g with\n  | %s %s =>\n"
+            "    if decide (%s.length ≠ %s.length) then false else\n"
+            "    outerLoop (fun %s %s => innerLoop %s (%s) (%s)) %s (List.range %s.length)\n  | _ => false\n\n") % (
+        defname, disp, X, lty, ctor, X2, X, X2, L, IND, IND, condl, reml, X, X2)
+
+
 def generate(src):
     ps, es = body_of(src, "similar")
     pp, ep = body_of(src, "pointSimilar")
-    out = ("import GeomV.C15.Model\n"
+    out = ("import GeomV.C15.GenLoop\n"
            "/-! GENERATED by harness/cmd/c15/go2lean.py from /repo/similar.go on every run — do not edit. -/\n"
            "namespace GeomV.C15.Gen\nopen GeomV\n\n"
            "def similar %s : Bool := %s\n\n"
@@ -324,4 +472,6 @@ def generate(src):
         out += "def %s %s : Bool :=\n  %s\n\n" % (name, params_lean(params), stmts(lines, name))
     for rtype, defname, rparam, pat in METHODS:
         out += method(src, rtype, defname, rparam, pat)
+    for rtype, defname, lty, ctor in GREEDY:
+        out += greedy_method(src, rtype, defname, lty, ctor)
     return out + "end GeomV.C15.Gen\n"
